@@ -68,7 +68,7 @@ def pools(tier):
     P['RES3'] = typed(N(1), NA) + [['c', list(BLANK)]]
     P['COND'] = both([B(True), B(False), N(0), N(2.5), T('a'), T('3'), T(''), NA, DIV])
     P['SV'] = both([N(1), N(2.5), N(0), T('a'), T('abc'), T('AbC'), T('3'), T(''), B(True), B(False), NA, DIV])
-    P['KEY'] = typed(N(1), N(3), T('a'), T('abc'), B(True), N(0), T('')) + [['c', list(N(2.5))], ['c', list(T('3'))]]
+    P['KEY'] = typed(N(1), N(3), T('a'), T('abc'), B(True), N(0), T(''), NA) + [['c', list(N(2.5))], ['c', list(T('3'))], ['c', list(DIV)]]
     P['DELIM'] = both([T(','), T(''), T('ab'), N(1), B(True), NA])
     P['IGN'] = both([B(True), B(False), N(0), N(1), NA])
     return P
@@ -203,12 +203,17 @@ def forms(tier):
     out['array'] = [[['a', [c]]] for c in contents(KINDS['array'])]
     out['mixed'] = [[['r', [c[:-1]]] if len(c) > 2 else ['c', c[0]], ['v', c[-1]]] for c in rng if len(c) > 1 and c[-1] != list(BLANK)]
     out['col'] = [[['r', [[v] for v in c]]] for c in rng if len(c) > 1]
+    # repeated values (the k-th largest counts repetitions; MEDIAN/VAR of equal values)
+    dups = [[list(N(x)) for x in d] for d in ([3, 3, 1, 2], [5, 1, 1, 4], [2.5, 2.5, 2.5], [1, 1], [2, 1, 2, 1, 2], [0, 0, -1, -1], [7, 7, 7, 8])]
+    out['range'] += [[['r', [c]]] for c in dups]
+    out['array'] += [[['a', [c]]] for c in dups]
+    out['col'] += [[['r', [[v] for v in c]]] for c in dups]
     return out
 
 
 STD = 'SUM PRODUCT SUMSQ AVERAGE MIN MAX MEDIAN COUNT COUNTA STDEV STDEVP STDEV.S STDEV.P VAR VARP VAR.S VAR.P'.split()
 AFUN = 'STDEVA STDEVPA VARA VARPA'.split()
-KPOOL = typed(N(0), N(1), N(2), N(3), N(4), N(1.5), T('2'), T('a'), B(True), NA) + [['c', list(BLANK)], ['c', list(N(2))]]
+KPOOL = typed(N(0), N(1), N(2), N(3), N(4), N(5), N(6), N(1.5), T('2'), T('a'), B(True), NA) + [['c', list(BLANK)], ['c', list(N(2))]]
 
 
 def agg_cases(tier):
@@ -234,7 +239,7 @@ def agg_cases(tier):
             for args in Fm[f]:
                 for k in KPOOL:
                     yield [name, args + [k]]
-    partner = [N(2), N(4), N(5), N(7)]
+    partner = [N(2), N(4), N(5), N(7), N(3), N(6), N(9)]
     for f in ('range', 'array', 'col'):
         for args in Fm[f]:
             a = args[0]
